@@ -109,6 +109,17 @@ def exclstep(prof, quick, thorough):
 
 
 CONFIG = {
+    "C16": {
+        "rule": ("rapid engine over CombineContext / ConflatedContext / ChainAfterFunc in a synctest bubble: 0-5 input contexts each carrying a distinct value (std cancel, deadline in virtual "
+                 "time, custom Context type without AfterFunc support, child of another input, never-cancellable), a drawn subset already cancelled at construction, nil entries, duplicates, "
+                 "nil primary; then 0-6 steps each cancelling a SET of contexts simultaneously (one goroutine per cancel released by one barrier, or one virtual instant), explicit cancel of the "
+                 "Conflated result, constructors racing the first step, and a gate on the ChainPrimaryFired instrumentation point that forces both orders of ChainAfterFunc's two hooks. Oracle "
+                 "after construction and after every step at quiescence: Combine cancelled iff primary or any non-nil other is, carries the primary's values; Conflated live iff >=1 input live "
+                 "and cancel not called, only the first input's values, panics on zero inputs; ChainAfterFunc's function called exactly once iff either context was cancelled, never twice; no "
+                 "goroutine left after teardown. non-trivial = >=3 inputs with >=1 pre-cancelled and a step cancelling >=2 at once, or both contexts of a chain cancelled in the same step; "
+                 "distinct = hash of the case."),
+        "jobs": [{"name": "context", "test": "TestC16Context", "checks": {"quick": 24000, "thorough": 1200000}, "shards": {"quick": 8, "thorough": 16}, "env": {"VKIT_PROFILE": "C16"}}],
+    },
     "C17": {
         "rule": ("rapid engine over bigbuff.Worker in a synctest bubble: stepper rules do (launched Do), done(holder), exit(instance gate: the worker function returns after it saw stop), race steps "
                  "(release every holder together with new Do calls on real Ps), plus free-running modes (2-8 holders doing Do -> yields -> done in loops, bursts of 16-96 rounds); the worker function "
